@@ -30,7 +30,7 @@ ASSUMPTIONS = ["valid publications go to destination 0 and the monitor is always
                "the first TIMING and first MESSAGE_TRAFFIC report (covering traffic from before the monitor subscribed) "
                "are used for calibration only",
                "an entry (unseen type, count 0) is not an attribution"]
-REQUIRE = {"timing_reports_checked": 40, "traffic_groups_checked": 30, "nonzero_timing_entries_checked": 200,
+REQUIRE = {"cases_with_timing_message_switched_off": 5, "timing_reports_checked": 40, "traffic_groups_checked": 30, "nonzero_timing_entries_checked": 200,
            "traffic_entries_checked": 200}
 CASE_TIMEOUT = 300
 NDISTINCT = [0, 1, 2, 63, 64, 65, 127, 128, 129, 300, 640]
@@ -65,7 +65,9 @@ def gen_cases(tier, seed):
 
 
 def run_case(case, tier):
-    rig = ManagerRig(stepped=True, timecode=bool(case.get("tc")), loud=(2 if case.get("n", 0) % 6 == 5 and max(max(iv["counts"]) for iv in case["ints"]) <= 255 else False))   # every sixth case: manager at DEBUG level, publishing its log messages
+    # every seventh case: a manager started with the TIMING_MESSAGE switched off (-T); the traffic reports are unaffected
+    notiming = case.get("n", 0) % 7 == 3
+    rig = ManagerRig(stepped=True, timecode=bool(case.get("tc")), send_msg_timing=not notiming, loud=(2 if case.get("n", 0) % 6 == 5 and max(max(iv["counts"]) for iv in case["ints"]) <= 255 else False))   # every sixth case: manager at DEBUG level, publishing its log messages
     try:
         sc = Scenario(rig, case["seed"])
         rng = random.Random(case["seed"])
@@ -325,6 +327,12 @@ def judge(sc, case, snaps, published, rclock):
         if set(cnt) <= {W.MT_FAILED_MESSAGE} | set(W.MT_LOGS):   # (and the manager's own log lines about them)
             C["notices_after_the_last_report"] = C.get("notices_after_the_last_report", 0) + sum(cnt.values())
             cnt.clear()
+    if case.get("n", 0) % 7 == 3:
+        # TIMING_MESSAGE switched off: none may arrive, and nothing is owed
+        C["cases_with_timing_message_switched_off"] = 1
+        if seen_timing:
+            V.append({"mech": "timing_sent_although_switched_off", "detail": f"{seen_timing} TIMING_MESSAGE reports from a manager started with send_msg_timing=False"})
+        tcount.clear()
     if tcount:
         V.append({"mech": "timing_never_reported", "detail": f"{sum(tcount.values())} messages after the last TIMING report although the clock passed the period"})
     if fcount:
